@@ -10,8 +10,8 @@ import (
 	"github.com/theQRL/go-qrllib/common"
 	"github.com/theQRL/go-qrllib/xmss"
 	"verifmc/drv"
-	"verifmc/seeds"
 	"verifmc/refxmss"
+	"verifmc/seeds"
 )
 
 type base struct {
